@@ -151,13 +151,14 @@ func HarnessC15Built(nIn, nOut, calls, consumer int) {
 			}
 		}
 	}
-	fails := vnBool("fails")
+	fails := false
 	w := &hWorld{}
-	spec := hFuncSpec{ID: 1, Form: hFormBuilt, In: in, Out: out, HasErr: true, Fails: fails}
-	twin := hFuncSpec{ID: 2, Form: hFormStruct, In: in, Out: out, HasErr: true, Fails: fails}
+	w.FailFn = func(id int) bool { return fails }
+	spec := hFuncSpec{ID: 1, Form: hFormBuilt, In: in, Out: out, HasErr: true}
+	twin := hFuncSpec{ID: 2, Form: hFormStruct, In: in, Out: out, HasErr: true}
 	w.Convs = []hFuncSpec{spec, twin}
 	w.Errs = []error{nil, fmt.Errorf("built failed"), fmt.Errorf("twin failed")}
-	vnNote(fmt.Sprintf("built%s fails=%v calls=%d consumer=%d", hSpecString(spec), fails, calls, consumer))
+	vnNote(fmt.Sprintf("built%s calls=%d consumer=%d (failure symbolic per call)", hSpecString(spec), calls, consumer))
 	bf, err := w.hBuild(spec)
 	vnAssert(err == nil, "C15.built-accepted")
 	tf, err2 := w.hBuild(twin)
@@ -168,6 +169,12 @@ func HarnessC15Built(nIn, nOut, calls, consumer int) {
 	hCheckSet(bf.Input(), in, "C15.built-input")
 	hCheckSet(bf.Output(), out, "C15.built-output")
 	for c := 0; c < calls; c++ {
+		// whether the callback fails is chosen symbolically for every call
+		fails = false
+		if vnBool("fails", c) {
+			fails = true
+		}
+		vnNoteAppend(fmt.Sprintf(" call%d.fails=%v", c, fails))
 		var args []Arg
 		pay := make([]int, nIn)
 		for i, l := range in {
@@ -216,7 +223,8 @@ func HarnessC15Built(nIn, nOut, calls, consumer int) {
 		}
 		vnCover("C15.built-call-checked")
 	}
-	if consumer == 1 && nOut > 0 && !fails {
+	fails = false
+	if consumer == 1 && nOut > 0 {
 		// downstream consumer of the built function's outputs
 		cons := hFuncSpec{ID: 3, Form: hFormStruct, In: out}
 		w.Convs = append(w.Convs, cons)
